@@ -362,23 +362,18 @@ func runBlock(c BlockCase) (res common.Result) {
 				}
 				logs = sent
 			}
-			done := make(chan error, 1)
-			go func() { done <- v.StoreLogs(logs) }()
-			select {
-			case err := <-done:
-				if err != nil {
-					res.Fail = common.Failf("storelogs-err", "step %d: %v", i, err)
-					close(tokens)
-					return
-				}
-			case <-time.After(20 * time.Second):
-				st := stacks()
-				if strings.Contains(st, "verifier.(*LogStore).StoreLogs") || strings.Contains(st, "verifier.(*LogStore).triggerVerify") {
-					leakOnPurpose = true
-					res.Fail = common.Failf("storelogs-blocked", "step %d: StoreLogs did not return while the report callback was blocked (%d checkpoints so far); a goroutine is parked inside verifier.StoreLogs:\n%s", i, cpCount, firstGoroutineWith(st, "verifier.(*LogStore)"))
-					return
-				}
-				panic("StoreLogs did not return within 20s but no goroutine is inside the verifier: harness problem")
+			var serr error
+			doneCh := make(chan struct{})
+			go func() { serr = v.StoreLogs(logs); close(doneCh) }()
+			if parked, st := common.WaitParked(doneCh, "verifier.(*LogStore).StoreLogs", 2*time.Second, 5*time.Minute); parked {
+				leakOnPurpose = true
+				res.Fail = common.Failf("storelogs-blocked", "step %d: StoreLogs is parked inside the verifier while the report callback is blocked (%d checkpoints so far):\n%s", i, cpCount, st)
+				return
+			}
+			if serr != nil {
+				res.Fail = common.Failf("storelogs-err", "step %d: %v", i, serr)
+				close(tokens)
+				return
 			}
 			for _, l := range logs {
 				if ok, _ := isCheckpoint(l); ok {
